@@ -14,7 +14,7 @@ func init() {
 		ID:          "C09",
 		Title:       "Integrity check: sound, complete, read-only in check mode, convergent in fix",
 		Technique:   "static analysis: may-write-bolt effect summaries over the call graph + SSA dominance by the `fix` guard for every write reachable from each CheckIntegrity; must-follow rule pairing every repair with a report; full-range fan-out and two-direction scan shape checks; re-evaluation must be tested on every path; no shortcut around the store-level fan-out; presence of nil-valued entries decided by key",
-		LevelText:   "Decides for every path of every CheckIntegrity implementation (and everything it can reach through the repository's call graph) that no bolt write (including get-or-create bucket accessors) can execute unless the `fix` parameter is true; that every repair site is followed by an errorSink report before the next iteration/return and that the reported `fixed` flag is false or implied by `fix`; that the store-level check visits every link collection and every constraint; and that each index checker scans both directions. It does NOT decide completeness on arbitrary corruption sets or one-pass convergence of fix mode (data dependent). The value re-evaluated for an index entry is tested on every path before the scan moves on; BaseStore.CheckIntegrity reaches success only through both fan-out loops; entry presence is decided by seeking the key (entries carry nil values). Added in rounds 8-9: no reference is decided by the value, as the maintenance does (EMPTYREF); IsEntityPresent answers for the store's own entities (PRESENT, cross-listed); closures of a checker are decided on their own paths. Added in round 10: a reference read through a symbol is not looked up in that symbol's own store (REFSTORE). Added in round 11: the path of an entity symbol ends in its key (SYMPATH). Added in round 12: a tag-only payload decodes to a nil value (TAGONLYNIL).",
+		LevelText:   "Decides for every path of every CheckIntegrity implementation (and everything it can reach through the repository's call graph) that no bolt write (including get-or-create bucket accessors) can execute unless the `fix` parameter is true; that every repair site is followed by an errorSink report before the next iteration/return and that the reported `fixed` flag is false or implied by `fix`; that the store-level check visits every link collection and every constraint; and that each index checker scans both directions. It does NOT decide completeness on arbitrary corruption sets or one-pass convergence of fix mode (data dependent). The value re-evaluated for an index entry is tested on every path before the scan moves on; BaseStore.CheckIntegrity reaches success only through both fan-out loops; entry presence is decided by seeking the key (entries carry nil values). Added in rounds 8-9: no reference is decided by the value, as the maintenance does (EMPTYREF); IsEntityPresent answers for the store's own entities (PRESENT, cross-listed); closures of a checker are decided on their own paths. Added in round 10: a reference read through a symbol is not looked up in that symbol's own store (REFSTORE). Added in round 11: the path of an entity symbol ends in its key (SYMPATH). Added in round 12: a tag-only payload decodes to a nil value (TAGONLYNIL). Added in round 13: an indexing context is not carried from one iteration to the next (FRESHCTX); the result of appending to a slice held in a field is stored back into that field only (ALIASAPPEND).",
 		LevelNote:   "Trusted: go/types, x/tools SSA, the name-and-shape CHA used for interface dispatch (over-approximates callees: sound for may-write), bbolt primitives list in checker/effects.go. Calls through caller-supplied function values (errorSink, external symbols) are assumed effect-free.",
 		DesignRef:   "DESIGN.md C09",
 		Explanation: "Sites: all implementers of Checkable.CheckIntegrity in boltz. For each, every call instruction whose callee may (transitively, via static calls, closures and interface dispatch resolved over the repository) reach a bbolt write primitive is an obligation discharged only by the branch fact fix==true (through && chains and derived flags such as tryFix) or by iterating a collection whose every append is so guarded.",
